@@ -7,10 +7,13 @@ package iplddecoders
 
 import (
 	"bytes"
+	"errors"
 	"io"
 	"strings"
 
 	"github.com/fxamacker/cbor/v2"
+	"github.com/ipld/go-ipld-prime"
+	"github.com/ipld/go-ipld-prime/codec/dagcbor"
 	"github.com/ipld/go-ipld-prime/datamodel"
 	cidlink "github.com/ipld/go-ipld-prime/linking/cid"
 	"github.com/rpcpool/yellowstone-faithful/ipld/ipldbindcode"
@@ -49,6 +52,16 @@ func c11Model_cborDecode(d *cbor.Decoder, v interface{}) error {
 	buf := make([]byte, br.Len())
 	n, _ := br.Read(buf)
 	verifAssert(n == len(c11Raw) && bytes.Equal(buf, c11Raw), c11Label+": the bytes handed to the CBOR decoder are not the node bytes")
+	if !ipldbindcode.VerifC11SetArray(v, c11ToAny(c11Cur).([]interface{})) {
+		verifFail(c11Label + ": the CBOR decode target is not *_array")
+	}
+	return nil
+}
+
+// c11Model_cborUnmarshal: the same cut for cbor.Unmarshal(data, &arr), should the decoders be
+// rewritten to use the one-shot API (same result on a single well-formed data item).
+func c11Model_cborUnmarshal(data []byte, v interface{}) error {
+	verifAssert(len(data) == len(c11Raw) && bytes.Equal(data, c11Raw), c11Label+": the bytes handed to the CBOR decoder are not the node bytes")
 	if !ipldbindcode.VerifC11SetArray(v, c11ToAny(c11Cur).([]interface{})) {
 		verifFail(c11Label + ": the CBOR decode target is not *_array")
 	}
@@ -150,85 +163,108 @@ func c11PTransaction(x *ipldbindcode.Transaction) *c11Val {
 	return c11PS("Transaction", c11PInt(x.Kind), c11PDataFrame(&x.Data), c11PDataFrame(&x.Metadata), c11PInt(x.Slot), idx)
 }
 
-// c11Decode runs one decoder of the code under test (fast: the ones the server and the indexers
-// use; classic: the schema-driven bindnode decoder, native runs only) and maps its result.
+// c11Decode runs one decoder and maps its result. fast: the public entry point the server and
+// the indexers call (iplddecoders.Decode<T>). classic (native runs only): the schema-driven
+// reference, ipld.Unmarshal with dag-cbor and the bindnode prototype of the embedded schema,
+// followed by the kind check (what _Decode<T>Classic does, without referring to it).
 func c11Decode(k Kind, raw []byte, classic bool) (v *c11Val, err error, nilResult bool) {
 	switch k {
 	case KindTransaction:
 		var x *ipldbindcode.Transaction
 		if classic {
-			x, err = _DecodeTransactionClassic(raw)
+			x = &ipldbindcode.Transaction{}
+			if _, err = ipld.Unmarshal(raw, dagcbor.Decode, x, ipldbindcode.Prototypes.Transaction.Type()); err == nil && x.Kind != int(k) {
+				err = errors.New("classic: wrong kind")
+			}
 		} else {
-			x, err = _DecodeTransactionFast(raw)
+			x, err = DecodeTransaction(raw)
 		}
 		if err != nil || x == nil {
-			return nil, err, x == nil
+			return nil, err, x == nil || classic
 		}
 		return c11PTransaction(x), nil, false
 	case KindEntry:
 		var x *ipldbindcode.Entry
 		if classic {
-			x, err = _DecodeEntryClassic(raw)
+			x = &ipldbindcode.Entry{}
+			if _, err = ipld.Unmarshal(raw, dagcbor.Decode, x, ipldbindcode.Prototypes.Entry.Type()); err == nil && x.Kind != int(k) {
+				err = errors.New("classic: wrong kind")
+			}
 		} else {
-			x, err = _DecodeEntryFast(raw)
+			x, err = DecodeEntry(raw)
 		}
 		if err != nil || x == nil {
-			return nil, err, x == nil
+			return nil, err, x == nil || classic
 		}
 		return c11PEntry(x), nil, false
 	case KindBlock:
 		var x *ipldbindcode.Block
 		if classic {
-			x, err = _DecodeBlockClassic(raw)
+			x = &ipldbindcode.Block{}
+			if _, err = ipld.Unmarshal(raw, dagcbor.Decode, x, ipldbindcode.Prototypes.Block.Type()); err == nil && x.Kind != int(k) {
+				err = errors.New("classic: wrong kind")
+			}
 		} else {
-			x, err = _DecodeBlockFast(raw)
+			x, err = DecodeBlock(raw)
 		}
 		if err != nil || x == nil {
-			return nil, err, x == nil
+			return nil, err, x == nil || classic
 		}
 		return c11PBlock(x), nil, false
 	case KindSubset:
 		var x *ipldbindcode.Subset
 		if classic {
-			x, err = _DecodeSubsetClassic(raw)
+			x = &ipldbindcode.Subset{}
+			if _, err = ipld.Unmarshal(raw, dagcbor.Decode, x, ipldbindcode.Prototypes.Subset.Type()); err == nil && x.Kind != int(k) {
+				err = errors.New("classic: wrong kind")
+			}
 		} else {
-			x, err = _DecodeSubsetFast(raw)
+			x, err = DecodeSubset(raw)
 		}
 		if err != nil || x == nil {
-			return nil, err, x == nil
+			return nil, err, x == nil || classic
 		}
 		return c11PSubset(x), nil, false
 	case KindEpoch:
 		var x *ipldbindcode.Epoch
 		if classic {
-			x, err = _DecodeEpochClassic(raw)
+			x = &ipldbindcode.Epoch{}
+			if _, err = ipld.Unmarshal(raw, dagcbor.Decode, x, ipldbindcode.Prototypes.Epoch.Type()); err == nil && x.Kind != int(k) {
+				err = errors.New("classic: wrong kind")
+			}
 		} else {
-			x, err = _DecodeEpochFast(raw)
+			x, err = DecodeEpoch(raw)
 		}
 		if err != nil || x == nil {
-			return nil, err, x == nil
+			return nil, err, x == nil || classic
 		}
 		return c11PEpoch(x), nil, false
 	case KindRewards:
 		var x *ipldbindcode.Rewards
 		if classic {
-			x, err = _DecodeRewardsClassic(raw)
+			x = &ipldbindcode.Rewards{}
+			if _, err = ipld.Unmarshal(raw, dagcbor.Decode, x, ipldbindcode.Prototypes.Rewards.Type()); err == nil && x.Kind != int(k) {
+				err = errors.New("classic: wrong kind")
+			}
 		} else {
-			x, err = _DecodeRewardsFast(raw)
+			x, err = DecodeRewards(raw)
 		}
 		if err != nil || x == nil {
-			return nil, err, x == nil
+			return nil, err, x == nil || classic
 		}
 		return c11PRewards(x), nil, false
 	case KindDataFrame:
 		var x *ipldbindcode.DataFrame
 		if classic {
-			x, err = _DecodeDataFrameClassic(raw)
+			x = &ipldbindcode.DataFrame{}
+			if _, err = ipld.Unmarshal(raw, dagcbor.Decode, x, ipldbindcode.Prototypes.DataFrame.Type()); err == nil && x.Kind != int(k) {
+				err = errors.New("classic: wrong kind")
+			}
 		} else {
-			x, err = _DecodeDataFrameFast(raw)
+			x, err = DecodeDataFrame(raw)
 		}
 		if err != nil || x == nil {
-			return nil, err, x == nil
+			return nil, err, x == nil || classic
 		}
 		return c11PDataFrame(x), nil, false
 	}
@@ -320,18 +356,36 @@ func c11Cmp(sch *c11Schema, want, got *c11Val, path string) {
 
 var c11AllLens = []int{1, 0, 2, 3, 33}
 
-func c11Setup(label string) (Kind, *c11Schema, *c11Gen, *c11Val) {
-	t := Kind(verifParam("T", int(KindEpoch)))
+func c11Setup() (Kind, *c11Schema, *c11Gen, *c11Val) {
+	tp := verifParam("T", int(KindEpoch))
+	if tp < 0 {
+		// one obligation for all seven kinds (case split)
+		tp = verifChoice("kind", int(KindDataFrame)+1)
+	}
+	t := Kind(tp)
 	name := t.String()
-	c11Label = label
+	c11Label = "C11." + strings.ToLower(name)
+	if verifParam("BYTES", 0) == 1 {
+		c11Label = "C11.bytes." + strings.ToLower(name)
+	}
 	sch := c11ParseSchema(verifC11SchemaText())
 	if sch.structs[name] == nil {
 		verifFail(c11Label + ": the schema has no struct " + name)
 	}
 	g := &c11Gen{sch: sch, nestPat: verifParam("NEST", 6)}
 	g.lens = c11AllLens[:verifParam("NLENS", len(c11AllLens))]
-	g.intPat = verifChoice("intpat", verifParam("INTPATS", 5))
+	if verifParam("SIDE", 0) != 0 {
+		// one of the first two nested structs is fully case-split, the other ones by pattern
+		g.side = 1 + g.choice("side", 2)
+	}
+	g.fixTop = verifParam("BYTES", 0) == 1
+	// CANON 1: canonical integer heads also under symgo; 2: for the structs without nested structs
+	// and optional fields only (Epoch, Entry)
+	c11Canon = verifParam("CANON", 0) == 1 || (verifParam("CANON", 0) == 2 && (t == KindEpoch || t == KindEntry))
 	v := g.strct(name, true, name)
+	// INTMODE 0: the integer pattern is case-split (INTPATS patterns for every shape);
+	// INTMODE 1: it is a function of the shape decisions (every pattern occurs, not with every shape)
+	g.finish(verifParam("INTPATS", 5), verifParam("INTMODE", 0) == 1)
 	c11Cur = v
 	c11Raw = c11ToCBOR(nil, v, g.topKind)
 	return t, sch, g, v
@@ -341,7 +395,7 @@ func c11Setup(label string) (Kind, *c11Schema, *c11Gen, *c11Val) {
 //
 // For every value V of struct T that conforms to ledger.ipldsch in tuple representation (within
 // the bounds), encoded by the schema-driven reference encoder:
-//   - _Decode<T>Fast accepts iff every kind field (top level and nested DataFrames) carries the
+//   - Decode<T> accepts iff every kind field (top level and nested DataFrames) carries the
 //     kind number of its struct, and returns a nil node with the error otherwise;
 //   - on acceptance kind, every field, every link (target and order), every byte string and
 //     the result of every Has*/Get* accessor equal V;
@@ -352,9 +406,8 @@ func c11Setup(label string) (Kind, *c11Schema, *c11Gen, *c11Val) {
 // fxamacker decoder and with the schema-driven bindnode decoder (_Decode<T>Classic) and
 // compare both with V.
 func VerifC11Node() {
-	t := Kind(verifParam("T", int(KindEpoch)))
-	label := "C11." + strings.ToLower(t.String())
-	t, sch, g, v := c11Setup(label)
+	t, sch, g, v := c11Setup()
+	label := c11Label
 	name := t.String()
 	raw := c11Raw
 
@@ -403,105 +456,53 @@ func VerifC11Node() {
 	verifReach("end")
 }
 
-func c11Try(f func()) (panicked bool) {
-	defer func() {
-		if r := recover(); r != nil {
-			if _, ok := r.(verifAssumeFailed); ok {
-				panic(r)
-			}
-			if s, ok := r.(string); ok && strings.HasPrefix(s, "VERIF-ASSERT-FAILED") {
-				panic(r)
-			}
-			panicked = true
+// VerifC11Kinds — the kind helpers of iplddecoders that the CAR tools use to select nodes by
+// kind: for an arbitrary KindSlice ks (length 0..N, arbitrary values) and arbitrary kinds,
+// ks.Has(k) holds iff some element equals k, ks.HasAny(k1, k2) iff Has(k1) or Has(k2) (and
+// HasAny() of nothing is false); Kind.String names the seven kinds of the ledger schema
+// pairwise differently, matches the struct names of ledger.ipldsch, and never names another
+// value like one of them. GetKind returns the second byte of any input of length >= 2 and an
+// error below that.
+func VerifC11Kinds() {
+	label := "C11.kinds"
+	n := verifChoice("len", verifParam("N", 3)+1)
+	ks := KindSlice{}
+	for i := 0; i < n; i++ {
+		ks = append(ks, Kind(verifInt("ks")))
+	}
+	k1, k2 := Kind(verifInt("k1")), Kind(verifInt("k2"))
+	cnt := func(k Kind) uint64 {
+		c := uint64(0)
+		for _, e := range ks {
+			c += verifIteU64(e == k, 1, 0)
 		}
-	}()
-	f()
-	return false
-}
+		return c
+	}
+	c1, c2 := cnt(k1), cnt(k2)
+	verifAssert(ks.Has(k1) == (c1 != 0), label+": KindSlice.Has differs from membership")
+	verifAssert(ks.HasAny(k1, k2) == (c1+c2 != 0), label+": KindSlice.HasAny differs from membership of either kind")
+	verifAssert(!ks.HasAny(), label+": KindSlice.HasAny() of no kinds is true")
 
-// c11Lenient is the region of known finding C11-lenient-tuple: the fast Epoch and Subset decoders
-// ignore surplus tuple elements and take null for their (required) link list, so a longer tuple
-// that has integers where they expect them and null or an empty list at the list position
-// decodes as an empty Epoch / Subset if its kind field says so. The schema-driven decoder
-// rejects such tuples (wrong length, null for a non-nullable list).
-func c11Lenient(k Kind, tuple []interface{}, top *c11Val) bool {
-	isInt := func(x interface{}) bool {
-		switch x.(type) {
-		case uint64, int64:
-			return true
-		}
-		return false
+	sch := c11ParseSchema(verifC11SchemaText())
+	seen := map[string]bool{}
+	for k := KindTransaction; k <= KindDataFrame; k++ {
+		name := k.String()
+		verifAssert(!seen[name], label+": two kinds share the name "+name)
+		seen[name] = true
+		st := sch.structs[name]
+		verifAssert(st != nil && len(st.fields) > 0 && st.fields[0].name == "kind", label+": no struct with a kind field in ledger.ipldsch is named "+name)
 	}
-	noLinks := func(x interface{}) bool {
-		if x == nil {
-			return true
-		}
-		l, ok := x.([]interface{})
-		return ok && len(l) == 0
+	for _, k := range []Kind{-1, 7, 8, 255, 256 + KindEpoch} {
+		verifAssert(!seen[k.String()], label+": a value outside the seven kinds is named like one of them")
 	}
-	if top == nil || top.neg {
-		return false
-	}
-	switch k {
-	case KindEpoch:
-		if len(tuple) > 3 && isInt(tuple[1]) && noLinks(tuple[2]) {
-			return top.u == uint64(KindEpoch)
-		}
-	case KindSubset:
-		if len(tuple) > 4 && isInt(tuple[1]) && isInt(tuple[2]) && noLinks(tuple[3]) {
-			return top.u == uint64(KindSubset)
-		}
-	}
-	return false
-}
 
-// VerifC11Mistag — a node of one kind is never accepted as another kind, also when its kind
-// field lies: a value with the *shape* of struct T (tier parameter) and arbitrary kind fields
-// is given to one of the six decoders of the other kinds, or to DecodeAny (case split). None of
-// the six may return a node; DecodeAny may return a node only if all kind fields are right, and
-// then a *T. A crash of a decoder on such a malformed node counts as a rejection here (crash
-// freedom on malformed input is property C12, not C11).
-func VerifC11Mistag() {
-	t := Kind(verifParam("T", int(KindEpoch)))
-	label := "C11.mistag." + strings.ToLower(t.String())
-	t, _, g, v := c11Setup(label)
-	// Property C11 speaks about schema-conforming nodes: the kind fields of the node are the ones
-	// of its shape. (Tuples whose kind field lies about their shape are malformed input; the fast
-	// Epoch/Subset decoders are more lenient than the schema-driven decoder on those — surplus
-	// elements ignored, null accepted for the required link list — which is outside C11.)
-	verifAssume(g.kindMiss == 0)
-	raw := c11Raw
-	tuple := c11ToAny(v).([]interface{})
-	k := Kind(verifChoice("decoder", int(KindDataFrame)+1))
-	if k != t {
-		verifKnownFinding("C11-lenient-tuple", c11Lenient(k, tuple, g.topKind))
-		accepted := false
-		crashed := c11Try(func() {
-			_, err, nilResult := c11Decode(k, raw, false)
-			accepted = err == nil || !nilResult
-		})
-		if crashed {
-			verifReach("crash")
-		}
-		verifAssert(!accepted, label+": a node with the shape of this kind is accepted by the decoder of kind "+k.String())
-		verifReach("end")
-		return
-	}
-	r := verifIteU64(c11Lenient(KindEpoch, tuple, g.topKind), 1, 0) + verifIteU64(c11Lenient(KindSubset, tuple, g.topKind), 1, 0)
-	if t == KindEpoch || t == KindSubset {
-		r = 0
-	}
-	verifKnownFinding("C11-lenient-tuple", r != 0)
-	var a interface{}
-	var aerr error
-	crashed := c11Try(func() { a, aerr = DecodeAny(raw) })
-	if crashed {
-		verifReach("crash")
-	} else if aerr == nil {
-		_, ak := c11PAny(a)
-		verifAssert(g.kindMiss == 0, label+": DecodeAny accepts a node whose kind fields do not match its shape")
-		verifAssert(ak == t, label+": DecodeAny returns a node of another Go type than the node's shape")
-		verifReach("any-accept")
+	rl := verifChoice("rawlen", 5)
+	raw := verifBytes("raw", rl)
+	gk, err := GetKind(raw)
+	if rl < 2 {
+		verifAssert(err != nil, label+": GetKind accepts an input shorter than two bytes")
+	} else {
+		verifAssert(err == nil && gk == Kind(raw[1]), label+": GetKind is not the second byte")
 	}
 	verifReach("end")
 }
